@@ -830,6 +830,38 @@ def _ifexp_to_if(tree):
     ast.fix_missing_locations(tree)
 
 
+def _split_parallel_assign(tree):
+    """N10: `a, b = X, Y` (tuple literal of the same length on the right, no target
+    name read by any right-hand element, plain names on the left) becomes
+    `a = X` `b = Y`: same values, same evaluation order."""
+    def fix(stmts):
+        out = []
+        for st in stmts:
+            for f in ("body", "orelse", "finalbody"):
+                sub = getattr(st, f, None)
+                if isinstance(sub, list) and sub and isinstance(sub[0], ast.stmt):
+                    setattr(st, f, fix(sub))
+            for h in getattr(st, "handlers", []) or []:
+                h.body = fix(h.body)
+            if isinstance(st, ast.Assign) and len(st.targets) == 1 \
+                    and isinstance(st.targets[0], ast.Tuple) and isinstance(st.value, ast.Tuple) \
+                    and len(st.targets[0].elts) == len(st.value.elts) >= 2 \
+                    and all(isinstance(t, ast.Name) for t in st.targets[0].elts) \
+                    and not any(isinstance(v, ast.Starred) for v in st.value.elts):
+                tn = {t.id for t in st.targets[0].elts}
+                reads = {n.id for v in st.value.elts for n in ast.walk(v) if isinstance(n, ast.Name)}
+                if not (tn & reads) and len(tn) == len(st.targets[0].elts):
+                    for t, v in zip(st.targets[0].elts, st.value.elts):
+                        out.append(ast.copy_location(ast.Assign([t], v), st))
+                    continue
+            out.append(st)
+        return out
+    for n in ast.walk(tree):
+        if isinstance(n, (ast.FunctionDef, ast.AsyncFunctionDef)):
+            n.body = fix(n.body)
+    ast.fix_missing_locations(tree)
+
+
 class _Fmt(ast.NodeTransformer):
     """N6: one spelling for string building - "%s/%s/stat" % (a, b),
     "{}/{}/stat".format(a, b), a + "/stat", os.path.join(a, b, "stat") and
@@ -955,6 +987,8 @@ def normalise(tree, known=None):
         _Fmt().visit(tree)
         ast.fix_missing_locations(tree)
     _Cmp().visit(tree)
+    if not _os0.environ.get("VERIF_NO_N10"):
+        _split_parallel_assign(tree)
     for n in ast.walk(tree):
         if isinstance(n, (ast.FunctionDef, ast.AsyncFunctionDef)):
             _inline_return_temps(n)     # `t = A if C else B; return t` is a return, not an assignment
